@@ -550,6 +550,29 @@ def Delivered (c : Cfg α) (s : State α) : Prop :=
   ∀ i r d, i ≤ c.depth → r < c.width i → d < c.width (i + 1) →
     (s.row i r).buf d = [] ∧ (s.row i r).out d = [] ∧ s.recvOn i r d = (s.row i r).sent d
 
+/-! #### One replica's `End` as a sequence of calls (where bounded delay is decided) -/
+
+/-- what happens to the batchers of one replica: a data element is enqueued (`el` = the timer test
+    `last_send.elapsed() > max_delay` of the batcher it is routed to, batcher.rs:77), or a
+    `FlushBatch` (receive timeout of the block / idle flush of the source) flushes all of them -/
+inductive RowOp (α : Type) where
+  | enq (y : α) (el : Bool)
+  | flushAll
+
+def Row.step (m : Batcher.Mode) (dest : α → Nat) (ρ : Row α) : RowOp α → Row α
+  | .enq y el => ρ.push m dest y el
+  | .flushAll => ρ.flushAll
+
+def Row.runOps (m : Batcher.Mode) (dest : α → Nat) (ρ : Row α) : List (RowOp α) → Row α
+  | [] => ρ
+  | op :: ops => Row.runOps m dest (ρ.step m dest op) ops
+
+/-- the call *services* the batcher towards `d`: an enqueue into it after `max_delay`, or a timeout
+    flush of the block -/
+def services (dest : α → Nat) (d : Nat) : RowOp α → Bool
+  | .enq y el => el && decide (dest y = d)
+  | .flushAll => true
+
 end Noir.Net
 
 namespace Noir.Latency
